@@ -15,6 +15,8 @@
      E <entries>    encode, entries in the given order: <hex>
      M <entries>    to_map: ok 0x0 <entries>
      N              file model: fresh empty state file; answers "-"
+     F <hex> <hex|x> file model: the state file holds the first bytes, a left-over temporary file
+                    the second ("x": there is none); answers the state file <hex>
      W <entries>    file model: file_write; answers the state file <hex>
      R              file model: file_read; <outcome> (alloc printed as 0x0)
    Anything else: "bad <text>".  Numbers of type N are printed in hex (0x..). *)
@@ -193,6 +195,9 @@ let () =
             let (es, _) = parse_entries toks in
             print_outcome buf (DecOk (mc_to_map es), N0)
           | ["N"] -> fsr := mc_fs_new; Buffer.add_string buf (hex_of_bytes (mc_state_file !fsr))
+          | ["F"; h; t] ->
+            fsr := mc_fs_make (bytes_of_hex h) (if t = "x" then None else Some (bytes_of_hex t));
+            Buffer.add_string buf (hex_of_bytes (mc_state_file !fsr))
           | "W" :: toks ->
             let (es, _) = parse_entries toks in
             fsr := mc_file_write !fsr es;
